@@ -51,6 +51,10 @@ def scenarios(run):
             cfg = dict(base, N=1, r=2.5, seed=sd, kpre=kpre, nsym=3, iters_limit=kpre + 2,
                        script=[('iter', kpre), ('keep',), ('other', 2), ('iter', 1), ('results',), ('other-solve',), ('solve',)], tags=['prefix'])
             out.append((cfg, 'prefix f#%d (%d concrete values): batches, sibling solver in between, poll, Solve' % (sd, kpre)))
+    for sd in (5, 6, seeds[0]):
+        # with local refinement (minimize contract stub): the returned optimum is still an evaluated point, with its own value, and nothing evaluated is smaller
+        cfg = dict(base, N=1, r=2.5, seed=sd, kpre=4, nsym=2, script=[('solve',)], iters_limit=5, refine=True, nm_points=2, tags=['with-refinement'])
+        out.append((cfg, 'Solve(refineSolution=True) under the minimize stub: prefix f#%d (4 concrete values) + 1 arbitrary value' % sd))
     for sd in seeds[:2]:
         cfg = dict(base, N=1, r=2.5, seed=sd, kpre=2, nsym=3, script=[('iter', 3), ('results',), ('solve',)], iters_limit=5, new_holder=True, tags=['new-value-holder'])
         out.append((cfg, 'Calculate returns a new value holder: prefix f#%d (2 concrete values) + arbitrary values' % sd))
@@ -76,12 +80,17 @@ def main():
     run.bound(step='%s (N, evaluated trials), all values symbolic (ties included)' % plan,
               scenarios='fresh N in {1,2} with 3 symbolic values; prefixes of 2..6 concrete values + 2 arbitrary values; a second live Solver '
                         'of another dimension is iterated between the steps')
-    run.not_covered('NaN objective values; refineSolution=True (the refinement overwrites the best point in place: C05); floats')
+    run.stub('scipy.optimize.minimize -> MinimizeStub in the refinement family (see C05)')
+    run.not_covered('NaN objective values; the real Nelder-Mead (contract stub); floats')
     run.parallel(jobs)
+    for r_ in run.jobs:
+        for c_ in r_.get('cex', []):
+            if (c_['detail'].get('cfg') or {}).get('refine'):
+                c_['detail']['native_extra_refine'] = 200
     agp.confirm(run, WANT)
     run.finish('after every iteration, inside every listener callback, in polled and returned Solutions the best trial is an evaluated point, '
                'its value is the objective there, and no evaluated trial is smaller',
-               vacuity=['recalc-pending', 'recalc-not-pending', 'new-optimum', 'optimum-kept', 'fresh', 'prefix', 'narrow-box', 'stopped-by-accuracy', 'new-value-holder'])
+               vacuity=['recalc-pending', 'recalc-not-pending', 'new-optimum', 'optimum-kept', 'fresh', 'prefix', 'narrow-box', 'stopped-by-accuracy', 'new-value-holder', 'with-refinement'])
 
 
 if __name__ == '__main__':
